@@ -698,4 +698,202 @@ theorem RelF.back {m m₄ : Nat → Nat} {s s₄ s₅ : St} {rs rs₄ : Ref.St} 
   rw [hcur]
   exact hfc.transfer hts (by rw [hfns]; exact hfl) (fun id hid => by rw [hfo5]; exact hfo id hid)
 
+/-! ## Entering a function: the machine -/
+
+/-- the state `CallFunction` leaves: return address pushed, control in the callee -/
+def entered (s : St) (vid : Nat) : St :=
+  { s with addr := some (s.curfunc, s.pc + 1) :: s.addr, curfunc := vid, pc := 0 }
+
+/-- `CallFunction` of a fixed-arity function, the arguments on the data stack -/
+theorem run_callFunction_fixed (vid : Nat) (vs : List Val) (D : List (Option Val)) (s : St)
+    (hd : s.data = vs.reverse.map some ++ D) (hv : (fnOf s vid).varargs = false) :
+    (callFunction vid vs.length).run s =
+      if vs.length = (fnOf s vid).nargs then (.ok (), entered s vid) else (.error .err, s) := by
+  unfold callFunction
+  have hnlt : ¬ s.data.length < vs.length := by rw [hd]; simp
+  have hnone : ((s.data.take vs.length).any Option.isNone) = false := by
+    have hlen : (vs.reverse.map some).length = vs.length := by simp
+    rw [hd, ← hlen, List.take_left]
+    simp
+  simp only [run_bind, run_get, run_ite, if_neg hnlt, hnone, Bool.false_eq_true, if_false, run_pure, hv]
+  by_cases hn : vs.length = (fnOf s vid).nargs
+  · simp only [hn, ne_eq, not_true_eq_false, if_false, run_pure, run_bind, run_modify, if_true]
+    rfl
+  · simp only [ne_eq, hn, not_false_eq_true, if_true, run_err, run_bind, if_false]
+
+/-- the state after `AddFuncScopeInstr` -/
+def _root_.ZygoVerif.VM.St.pushFnScope (s : St) (t : Nat) : St :=
+  { s with scopes := s.scopes ++ [({ isFunction := true, myFunction := some t } : Scope)],
+           linear := some s.scopes.length :: s.linear, pc := s.pc + 1 }
+
+theorem exec_addFuncScope (f t : Nat) (s : St) : (exec (f + 1) (.addFuncScope t)).run s = (.ok (), s.pushFnScope t) := by
+  rw [exec]; rfl
+
+/-- binding a list of pairs, one after the other, in scope `id` -/
+def bindsVars (l : List (String × Val)) (pairs : List (String × Val)) : List (String × Val) :=
+  pairs.foldl (fun l p => VM.assocSet l p.1 p.2) l
+
+theorem lookup_bindsVars (y : String) : ∀ (pairs l : List (String × Val)),
+    (bindsVars l pairs).lookup y = match pairs.reverse.lookup y with | some v => some v | none => l.lookup y
+  | [], l => rfl
+  | (x, v) :: pairs, l => by
+    show (bindsVars (VM.assocSet l x v) pairs).lookup y = _
+    rw [lookup_bindsVars y pairs, List.reverse_cons, List.lookup_append, lookup_assocSet]
+    cases pairs.reverse.lookup y with
+    | some w => rfl
+    | none =>
+      simp only [List.lookup_cons, List.lookup_nil, Option.none_or]
+      by_cases hy : (y == x) = true
+      · simp [hy]
+      · simp [hy]
+
+/-- the state after the parameter prologue -/
+def afterParams (s : St) (F : Nat) (pairs : List (String × Val)) (D : List (Option Val)) : St :=
+  { s with scopes := s.scopes.set F { scopeOf s F with vars := bindsVars (scopeOf s F).vars pairs },
+           pc := s.pc + pairs.length, data := D }
+
+/-- **The prologue**: `popStackPutEnv` for each parameter (in the order of `pairs`), the values on
+the data stack, the names not yet bound in the top scope and distinct -/
+theorem reach_params : ∀ (pairs : List (String × Val)) (s : St) (P Q : List Instr) (D : List (Option Val))
+    (F : Nat) (rest : List (Option Nat)),
+    (fnOf s s.curfunc).user = false → (fnOf s s.curfunc).code = P ++ pairs.map (fun p => Instr.popStackPutEnv p.1) ++ Q →
+    s.pc = (P.length : Int) → s.data = pairs.map (fun p => some p.2) ++ D → s.linear = some F :: rest →
+    F < s.scopes.length → (∀ x ∈ pairs.map (·.1), (scopeOf s F).vars.lookup x = none) → (pairs.map (·.1)).Nodup →
+    ReachX s (afterParams s F pairs D)
+  | [], s, P, Q, D, F, rest, hu, hc, hp, hd, hl, hF, hfree, hnd => by
+    have : afterParams s F [] D = s := by
+      unfold afterParams bindsVars
+      simp only [List.foldl_nil, List.length_nil, Int.natCast_zero, Int.add_zero]
+      have h1 : s.scopes.set F (scopeOf s F) = s.scopes := by
+        unfold scopeOf; rw [List.getD_eq_getElem?_getD, List.getElem?_eq_getElem hF, Option.getD_some]
+        exact List.set_getElem_self hF
+      have h2 : D = s.data := by simpa using hd.symm
+      rw [h2]
+      show { s with scopes := s.scopes.set F { scopeOf s F with vars := (scopeOf s F).vars } } = s
+      rw [show ({ scopeOf s F with vars := (scopeOf s F).vars } : Scope) = scopeOf s F from rfl, h1]
+    rw [this]; exact ReachX.refl s
+  | (x, v) :: pairs, s, P, Q, D, F, rest, hu, hc, hp, hd, hl, hF, hfree, hnd => by
+    have a : At s P (.popStackPutEnv x) (pairs.map (fun p => Instr.popStackPutEnv p.1) ++ Q) :=
+      ⟨hu, by rw [hc]; simp, hp⟩
+    have hd' : s.data = some v :: (pairs.map (fun p => some p.2) ++ D) := by rw [hd]; rfl
+    have hfx : (scopeOf s F).vars.lookup x = none := hfree x (by simp)
+    have hstep : ∀ f, (exec (f + 1) (.popStackPutEnv x)).run s
+        = (.ok (), (s.jmp (s.pc + 1) (pairs.map (fun p => some p.2) ++ D)).bind F x v) := fun f => by
+      rw [exec_popStackPutEnv f x s v _ hd', run_bindTop]
+      rw [show (s.jmp (s.pc + 1) (pairs.map (fun p => some p.2) ++ D)).linear = some F :: rest from hl]
+      simp only
+      rw [show scopeOf (s.jmp (s.pc + 1) (pairs.map (fun p => some p.2) ++ D)) F = scopeOf s F from rfl, hfx]
+    have r1 : ReachX s ((s.jmp (s.pc + 1) (pairs.map (fun p => some p.2) ++ D)).bind F x v) :=
+      (Reach.step a hstep).toX
+    generalize hs1 : (s.jmp (s.pc + 1) (pairs.map (fun p => some p.2) ++ D)).bind F x v = s1 at r1
+    have hsc1 : scopeOf s1 F = { scopeOf s F with vars := VM.assocSet (scopeOf s F).vars x v } := by
+      subst hs1; rw [scopeOf_bind]
+      have hF' : F < (s.jmp (s.pc + 1) (pairs.map (fun p => some p.2) ++ D)).scopes.length := hF
+      rw [if_pos ⟨rfl, hF'⟩]; rfl
+    have hnd' : (pairs.map (·.1)).Nodup := (List.nodup_cons.mp hnd).2
+    have hnotin : x ∉ pairs.map (·.1) := (List.nodup_cons.mp hnd).1
+    have ih := reach_params pairs s1 (P ++ [.popStackPutEnv x]) Q D F rest (by subst hs1; exact hu)
+      (by subst hs1; show (fnOf s s.curfunc).code = _; rw [hc]; simp)
+      (by subst hs1; show s.pc + 1 = _; rw [hp]; simp) (by subst hs1; rfl) (by subst hs1; exact hl)
+      (by subst hs1; show F < (s.scopes.set F _).length; simpa using hF)
+      (fun y hy => by
+        rw [hsc1]; simp only [lookup_assocSet]
+        have hne : (y == x) = false := by
+          have : y ≠ x := fun e => hnotin (e ▸ hy)
+          simpa using this
+        rw [hne]; exact hfree y (by simp [hy])) hnd'
+    have hfin : afterParams s1 F pairs D = afterParams s F ((x, v) :: pairs) D := by
+      subst hs1
+      unfold afterParams
+      rw [hsc1]
+      show ({ s with scopes := (s.scopes.set F _).set F _, pc := s.pc + 1 + pairs.length, data := D } : St) = _
+      simp only [List.set_set, List.length_cons]
+      congr 1
+      push_cast; omega
+    rw [hfin] at ih
+    exact r1.trans ih
+
+/-! ## Entering a function: the relation -/
+
+/-- the relation at the start of a callee's body: a function scope with the parameters on top of
+the caller's live stack, against a fresh frame under the global frame with the parameters -/
+theorem RelF.enter {m : Nat → Nat} {s₁ : St} {rs₁ : Ref.St} {env vid : Nat} (h : RelF m s₁ rs₁ env)
+    (hg : GoodFn m s₁ rs₁ vid) (sB : St) (rsB : Ref.St) (t : Nat) (Lvm Lref : List (String × Val))
+    (hsc : sB.scopes = s₁.scopes ++ [({ vars := Lvm, isFunction := true, myFunction := some t } : Scope)])
+    (hlin : sB.linear = some s₁.scopes.length :: s₁.linear) (hfns : sB.fns = s₁.fns) (hcur : sB.curfunc = vid)
+    (hheap : sB.heap = s₁.heap) (htr : sB.trace = s₁.trace)
+    (hfr : rsB.frames = rs₁.frames ++ [({ vars := Lref, parent := some 0 } : Ref.Frame)])
+    (hclos : rsB.clos = rs₁.clos) (hrheap : rsB.heap = rs₁.heap) (hrtr : rsB.trace = rs₁.trace)
+    (ht : (fnOf s₁ t).closing = [some 0])
+    (hL : ∀ y, Lref.lookup y = (Lvm.lookup y).map (trf m))
+    (hLok : ∀ y v, okSym y = true → Lvm.lookup y = some v → VOk m s₁ rs₁ v)
+    (hLfo : ∀ h ∈ foBuiltins, Lref.lookup h = none) : RelF m sB rsB rs₁.frames.length := by
+  have hlen := h.len
+  obtain ⟨b, hc, hfc⟩ := h.ctx
+  obtain ⟨fr0, hf0, hp0, hfl0⟩ := h.root0
+  have hpos : 0 < rs₁.frames.length := lt_of_getElem?_some hf0
+  have hfo : ∀ i, fnOf sB i = fnOf s₁ i := fun i => by unfold fnOf; rw [hfns]
+  have hso_old : ∀ i, i < s₁.scopes.length → scopeOf sB i = scopeOf s₁ i := fun i hi => by
+    unfold scopeOf; rw [hsc]; simp only [List.getD_eq_getElem?_getD, List.getElem?_append_left hi]
+  have hso_new : scopeOf sB s₁.scopes.length = { vars := Lvm, isFunction := true, myFunction := some t } := by
+    unfold scopeOf; rw [hsc]; simp [List.getD_eq_getElem?_getD]
+  have hso_big : ∀ i, s₁.scopes.length < i → scopeOf sB i = {} := fun i hi => by
+    unfold scopeOf; rw [hsc]; rw [List.getD_eq_getElem?_getD, List.getElem?_eq_none (by simp; omega)]; rfl
+  have hso1_big : ∀ i, s₁.scopes.length ≤ i → scopeOf s₁ i = {} := fun i hi => by
+    unfold scopeOf; rw [List.getD_eq_getElem?_getD, List.getElem?_eq_none hi]; rfl
+  have hfl_old : ∀ i, i < rs₁.frames.length → isFnScope sB i = isFnScope s₁ i := fun i hi => by
+    unfold isFnScope; rw [hso_old i (by rw [hlen]; exact hi)]
+  have hgood : ∀ k, GoodFn m s₁ rs₁ k → GoodFn m sB rsB k := fun k hk =>
+    hk.mono (by rw [hfns]; exact Nat.le_refl _) (fun i _ => hfo i) (fun i c hc' => by rw [hclos]; exact hc') rfl
+  have hfrget_old : ∀ i, i < rs₁.frames.length → rsB.frames.getD i {} = rs₁.frames.getD i {} := fun i hi => by
+    rw [hfr]; simp only [List.getD_eq_getElem?_getD, List.getElem?_append_left hi]
+  have hfrget_new : rsB.frames.getD rs₁.frames.length {} = { vars := Lref, parent := some 0 } := by
+    rw [hfr]; simp [List.getD_eq_getElem?_getD]
+  have hfrget_big : ∀ i, rs₁.frames.length < i → rsB.frames.getD i {} = {} := fun i hi => by
+    rw [hfr, List.getD_eq_getElem?_getD, List.getElem?_eq_none (by simp; omega)]; rfl
+  have hext : ∀ (i : Nat) (fr : Ref.Frame), rs₁.frames[i]? = some fr →
+      ∃ fr' : Ref.Frame, rsB.frames[i]? = some fr' ∧ fr'.parent = fr.parent := fun i fr hf =>
+    ⟨fr, by rw [hfr, List.getElem?_append_left (lt_of_getElem?_some hf)]; exact hf, rfl⟩
+  obtain ⟨lrest, hlrest⟩ := hc.head
+  obtain ⟨c, _, _, _, _, _, _, _, _, _, _, hclo, ⟨p, hp1, hp2, hp3⟩, _⟩ := hg.clo
+  refine ⟨by rw [hsc, hfr]; simp [hlen], ?_, ⟨fr0, by rw [hfr, List.getElem?_append_left hpos]; exact hf0, hp0,
+      by rw [hfl_old 0 hpos]; exact hfl0⟩, ⟨true, ?_, ?_⟩, ?_, by rw [hrheap, hheap]; exact h.heap,
+    by rw [htr, hrtr]; exact h.trace, ?_, ?_, by rw [hheap]; exact HeapIn.mono h.hok hgood⟩
+  · -- vars
+    intro i x
+    rcases Nat.lt_trichotomy i rs₁.frames.length with hi | hi | hi
+    · rw [hfrget_old i hi, hso_old i (by rw [hlen]; exact hi)]; exact h.vars i x
+    · subst hi; rw [hfrget_new, ← hlen, hso_new]; exact hL x
+    · rw [hfrget_big i hi, hso_big i (by rw [hlen]; exact hi)]; rfl
+  · -- the chain: the function scope on top of the caller's stack
+    rw [hlin, hlen]
+    refine ChainF.fn _ { vars := Lref, parent := some 0 } s₁.linear (by rw [hfr]; simp) rfl hpos ?_
+      (by rw [hlrest]; simp)
+    show (scopeOf sB rs₁.frames.length).isFunction = true
+    rw [← hlen, hso_new]
+  · rw [hcur]
+    exact FnChainF.clos vid p (by rw [hfns]; exact hg.lt) (by rw [hfo]; exact hp1) hp2 (by rw [hfo]; exact hclo)
+      (by rw [hfo]; exact hp3)
+  · -- function scopes
+    intro i hi
+    rcases Nat.lt_trichotomy i s₁.scopes.length with hlt | heq | hgt
+    · have hi' : isFnScope s₁ i = true := by rw [← hfl_old i (by rw [← hlen]; exact hlt)]; exact hi
+      obtain ⟨t', h1, h2⟩ := h.fscopes i hi'
+      exact ⟨t', by rw [hso_old i hlt]; exact h1, by rw [hfo]; exact h2⟩
+    · subst heq; exact ⟨t, by rw [hso_new], by rw [hfo]; exact ht⟩
+    · unfold isFnScope at hi; rw [hso_big i hgt] at hi; cases hi
+  · -- builtins stay global
+    intro name hn
+    refine ⟨by rw [hfrget_old 0 hpos]; exact (h.globals name hn).1, fun i hi => ?_⟩
+    rcases Nat.lt_trichotomy i rs₁.frames.length with hlt | heq | hgt
+    · rw [hfrget_old i hlt]; exact (h.globals name hn).2 i hi
+    · subst heq; rw [hfrget_new]; exact hLfo name hn
+    · rw [hfrget_big i hgt]; rfl
+  · -- values in order
+    intro i x v hx hv
+    rcases Nat.lt_trichotomy i s₁.scopes.length with hlt | heq | hgt
+    · rw [hso_old i hlt] at hv; exact ValIn.mono (h.vok i x v hx hv) hgood
+    · subst heq; rw [hso_new] at hv; exact ValIn.mono (hLok x v hx hv) hgood
+    · rw [hso_big i hgt] at hv; cases hv
+
 end ZygoVerif.Sim
